@@ -54,6 +54,7 @@ func c11Run(c *Ctx) {
 	var top []gen.Span
 	var exifSites, xmpSites, prevSites []c11Site
 	var preview []byte
+	prvwConsistent := true
 	isCR3 := !g.Chance(1, 5)
 	malformed, canonicalOrder := false, false
 	var malDesc string
@@ -84,8 +85,18 @@ func c11Run(c *Ctx) {
 		if y := c.L("gen:y"); y.Chance(1, 3) {
 			o.Top64 = 1 + y.Intn(7) // moov / xpacket / preview boxes with 64-bit sizes
 		}
+		if y := c.L("gen:y"); o.Preview != nil && y.Chance(1, 4) {
+			// the PRVW header's jpeg-size field disagrees with what the box holds: the payload is
+			// what the box holds
+			o.PrvwField = []int{40, 1, -1, -20, 64, 100000}[y.Intn(6)]
+			if len(o.Preview)+o.PrvwField < 0 {
+				o.PrvwField = 1
+			}
+			c.Inc("probe:prvw-size-field-differs-from-box")
+		}
 		cr := gen.DrawCR3(g, o)
 		data, top, preview = cr.Bytes, cr.Top, o.Preview
+		prvwConsistent = o.PrvwField == 0
 		// PreviewCR3 walks the layout cameras write: ftyp, moov, xpacket uuid, preview uuid
 		canonicalOrder = o.XMP != nil && !o.TopExtra && o.Tail != 2
 		for i := 0; i < 4; i++ {
@@ -102,7 +113,7 @@ func c11Run(c *Ctx) {
 		}
 		if o.Preview != nil {
 			prevSites = append(prevSites, c11Site{kind: "prvw", payload: o.Preview, start: cr.PrevOff, limits: []int{cr.PRVW.End, cr.PrevUUID.End},
-				hdr: fmt.Sprintf("size=%d w=%d h=%d", len(o.Preview), cr.PrevW, cr.PrevH)})
+				hdr: fmt.Sprintf("size=%d w=%d h=%d", len(o.Preview)+o.PrvwField, cr.PrevW, cr.PrevH)})
 		}
 		// malformed variant: one child overstates its size (its parent's bound must hold)
 		if cfg.Chance(1, 4) {
@@ -345,7 +356,7 @@ func c11Run(c *Ctx) {
 		return
 	}
 	// the convenience entry point must deliver the same preview (shared with C06)
-	if isCR3 && !malformed && preview != nil && canonicalOrder && cfg.Chance(1, 4) {
+	if isCR3 && !malformed && preview != nil && canonicalOrder && prvwConsistent && cfg.Chance(1, 4) {
 		harness.Pristine()
 		r2 := newReader(c.Dev, data, Fault{}, Delivery{})
 		var b []byte
